@@ -10,6 +10,7 @@ import (
 	"reflect"
 	"strconv"
 	"strings"
+	"unicode/utf8"
 
 	"github.com/ctessum/geom"
 	"github.com/ctessum/geom/encoding/shp"
@@ -34,7 +35,7 @@ func init() {
 		Run: run,
 		Floors: func(t string) map[string]int64 {
 			return map[string]int64{"api.struct": 100, "api.fields": 100, "kind.Point": 20, "kind.MultiPoint": 20, "kind.LineString": 20, "kind.MultiLineString": 20, "kind.Polygon": 20, "kind.*Bounds": 20,
-				"records.compared": 3000, "string.last_column": 50, "string.with_edge_blanks": 200, "ring.unclosed": 200, "file.empty": 3, "column.string": 100, "column.int": 100, "column.float": 100}
+				"records.compared": 3000, "string.last_column": 50, "string.with_edge_blanks": 200, "ring.unclosed": 200, "file.empty": 3, "column.string": 100, "column.int": 100, "column.float": 100, "string.at_field_width": 20}
 		},
 	})
 }
@@ -143,6 +144,24 @@ func genString(c *core.Ctx, r *gen.R) string {
 	}
 	s := b.String()
 	s = strings.Trim(s, " ")
+	if r.Chance(0.08) {
+		// exactly at / just below the 50-byte field width, with a multi-byte rune at the end
+		for len(s) < 47 {
+			s += alphabet[r.Intn(10)]
+		}
+		s = s[:47]
+		for !utf8.ValidString(s) {
+			s = s[:len(s)-1]
+		}
+		switch r.Intn(3) {
+		case 0:
+			s += "世" // 50 bytes when s has 47
+		case 1:
+			s += "ab"
+		default:
+			s += "abc"
+		}
+	}
 	if r.Chance(0.12) {
 		// leading / trailing blanks: their own category
 		c.Count("string.with_edge_blanks")
@@ -155,6 +174,12 @@ func genString(c *core.Ctx, r *gen.R) string {
 	}
 	if len(s) > 50 {
 		s = s[:50]
+		for !utf8.ValidString(s) {
+			s = s[:len(s)-1]
+		}
+	}
+	if len(s) >= 49 {
+		c.Count("string.at_field_width")
 	}
 	return s
 }
